@@ -209,6 +209,8 @@ func c19ReflStatic(v ssa.Value) types.Type {
 				return mi.X.Type()
 			}
 		}
+	case "Value.Type":
+		return c19ReflStatic(recv)
 	case "Value.Elem", "Type.Elem":
 		if t := c19ReflStatic(recv); t != nil {
 			if pt, ok := t.Underlying().(*types.Pointer); ok {
@@ -560,7 +562,7 @@ func c19R1Engine(c *Ctx, p *Prog) {
 			}
 		}
 	}
-	c.Floor(rule, n, 3, "engine call sites of eval.Eval (search x2, uci x1)")
+	c.Floor(rule, n, 1, "engine call sites of eval.Eval (today: search x2, uci x1)")
 	// eval.Coefficients is never written after initialisation
 	bad := 0
 	for _, fn := range p.OwnFuncs() {
@@ -706,7 +708,7 @@ func c19Norm(v ssa.Value, opaque *bool, depth int) string {
 // c19Eval evaluates the arithmetic skeleton (+ - * / and negation, conversions
 // ignored, i.e. as a rational function) of an SSA expression; every other node
 // is a leaf whose value is a deterministic function of its normal form.
-func c19Eval(v ssa.Value, probe int, leaves map[string]float64) (float64, bool) {
+func c19Eval(v ssa.Value, probe int, leaves map[string]float64, callLeaves map[string]bool) (float64, bool) {
 	v = c19Strip(v)
 	switch x := v.(type) {
 	case *ssa.Const:
@@ -715,8 +717,8 @@ func c19Eval(v ssa.Value, probe int, leaves map[string]float64) (float64, bool) 
 			return f, true
 		}
 	case *ssa.BinOp:
-		a, ok1 := c19Eval(x.X, probe, leaves)
-		b, ok2 := c19Eval(x.Y, probe, leaves)
+		a, ok1 := c19Eval(x.X, probe, leaves, callLeaves)
+		b, ok2 := c19Eval(x.Y, probe, leaves, callLeaves)
 		if !ok1 || !ok2 {
 			return 0, false
 		}
@@ -733,14 +735,38 @@ func c19Eval(v ssa.Value, probe int, leaves map[string]float64) (float64, bool) 
 		return 0, false
 	case *ssa.UnOp:
 		if x.Op == token.SUB {
-			a, ok := c19Eval(x.X, probe, leaves)
+			a, ok := c19Eval(x.X, probe, leaves, callLeaves)
 			return -a, ok
+		}
+	case *ssa.Call:
+		// min/max (builtin or math) are interpreted
+		name := ""
+		if b, ok := x.Call.Value.(*ssa.Builtin); ok {
+			name = b.Name()
+		} else if sc := x.Call.StaticCallee(); sc != nil && (sc.String() == "math.Min" || sc.String() == "math.Max") {
+			name = strings.ToLower(sc.Name())
+		}
+		if (name == "min" || name == "max") && len(x.Call.Args) > 0 {
+			res := 0.0
+			for i, a := range x.Call.Args {
+				f, ok := c19Eval(a, probe, leaves, callLeaves)
+				if !ok {
+					return 0, false
+				}
+				if i == 0 || (name == "min" && f < res) || (name == "max" && f > res) {
+					res = f
+				}
+			}
+			return res, true
 		}
 	}
 	op := false
 	key := c19Norm(v, &op, 0)
 	if op {
 		return 0, false
+	}
+	if _, isCall := v.(*ssa.Call); isCall {
+		callLeaves[key] = true
 	}
 	h := fnv.New64a()
 	fmt.Fprintf(h, "%d|%s", probe, key)
@@ -846,11 +872,21 @@ func c19R2(c *Ctx, p *Prog, inst *ssa.Function) {
 			c.Ok(rule, tsSpec+"#agree", fr[0].Pos(), "integer and float branch of taperedScore are the same expression after stripping conversions: %s", sf)
 		default:
 			agree, decided := true, true
-			var witness string
+			var witness, foreign string
 			for probe := 0; probe < 8 && decided && agree; probe++ {
-				lv := map[string]float64{}
-				a, ok1 := c19Eval(ir[0].Results[0], probe, lv)
-				b, ok2 := c19Eval(fr[0].Results[0], probe, lv)
+				lv, ci, cf := map[string]float64{}, map[string]bool{}, map[string]bool{}
+				a, ok1 := c19Eval(ir[0].Results[0], probe, lv, ci)
+				b, ok2 := c19Eval(fr[0].Results[0], probe, lv, cf)
+				for k := range ci {
+					if !cf[k] {
+						foreign = k
+					}
+				}
+				for k := range cf {
+					if !ci[k] {
+						foreign = k
+					}
+				}
 				if !ok1 || !ok2 {
 					decided = false
 				} else if math.Abs(a-b) > 1e-9*math.Max(1, math.Max(math.Abs(a), math.Abs(b))) {
@@ -861,6 +897,9 @@ func c19R2(c *Ctx, p *Prog, inst *ssa.Function) {
 					}
 					witness = fmt.Sprintf("with %s the integer formula gives %.6g (before truncation), the float formula %.6g", strings.Join(ks, ", "), a, b)
 				}
+			}
+			if !agree && foreign != "" {
+				decided = false // a call the rule does not interpret occurs in one branch only: it may equal what the other branch computes
 			}
 			switch {
 			case !decided:
@@ -904,29 +943,30 @@ func c19R2(c *Ctx, p *Prog, inst *ssa.Function) {
 			tab = nil
 		}
 	}
-	// integer branch: sigm[Clamp(n, 0, len-1)]
+	// integer branch: sigm[clamp(n, 0, len-1)], the clamp being chess.Clamp or any min/max nest (helpers inlined)
 	okIdx := false
-	if ld, ok := c19Strip(ir[0].Results[0]).(*ssa.UnOp); ok && ld.Op == token.MUL {
+	if ld, ok := c19Strip(ir[0].Results[0]).(*ssa.UnOp); ok && ld.Op == token.MUL && tab != nil {
 		if ia, ok := ld.X.(*ssa.IndexAddr); ok {
-			g, isG := ia.X.(*ssa.Global)
-			call, isCall := c19Strip(ia.Index).(*ssa.Call)
-			if isG && g.Name() == "sigm" && g.Pkg != nil && g.Pkg.Pkg.Path() == Mod+"/eval" && isCall && objName(calleeObj(call)) == "chess.Clamp" && len(call.Call.Args) == 3 && tab != nil {
-				lo, okLo := constOf(call.Call.Args[1])
-				hi, okHi := constOf(call.Call.Args[2])
+			if g, isG := ia.X.(*ssa.Global); isG && g.Name() == "sigm" && g.Pkg != nil && g.Pkg.Pkg.Path() == Mod+"/eval" {
 				okIdx = true
-				if c19Strip(call.Call.Args[0]) != nParam {
-					c.Undec(rule, sgSpec+"#index", call.Pos(), "the clamped value is not the function's argument")
-				} else if !okLo || !okHi {
-					c.Undec(rule, sgSpec+"#index", call.Pos(), "clamp bounds are not constants")
-				} else {
-					c.Check(lo == 0 && hi == int64(len(tab))-1, rule, sgSpec+"#index", call.Pos(), "integer branch reads sigm[Clamp(n, %d, %d)]; the table has %d entries (bounds must be 0 and len-1: a narrower clamp makes the top entries unreachable, a wider one indexes out of range)", lo, hi, len(tab))
+				r := c19Clamp(ia.Index, nil, 0)
+				switch {
+				case r.x == nil || c19Strip(r.x) != nParam:
+					c.Undec(rule, sgSpec+"#index", ia.Pos(), "the table index is not a clamp (min/max nest or single-expression helper) of the function's argument")
+				case r.lo == nil || r.hi == nil:
+					if arr, isArr := g.Type().Underlying().(*types.Pointer).Elem().Underlying().(*types.Array); isArr && r.lo == nil && r.hi == nil && arr.Len() == int64(len(tab)) {
+						c.Fail(rule, sgSpec+"#index", ia.Pos(), "the table is indexed with the unclamped argument: king-attack scores outside 0..%d panic in the engine while the tuner's closed form is defined everywhere", len(tab)-1)
+					} else {
+						c.Undec(rule, sgSpec+"#index", ia.Pos(), "the table index is clamped on one side only, or by non-constant bounds")
+					}
+				default:
+					c.Check(*r.lo == 0 && *r.hi == int64(len(tab))-1, rule, sgSpec+"#index", ia.Pos(), "integer branch reads sigm[clamp(n, %d, %d)]; the table has %d entries (bounds must be 0 and len-1: a narrower clamp makes the top entries unreachable, a wider one indexes out of range)", *r.lo, *r.hi, len(tab))
 				}
-				c19ClampShape(c, rule, call)
 			}
 		}
 	}
 	if !okIdx && tab != nil {
-		c.Undec(rule, sgSpec+"#index", ir[0].Pos(), "integer branch is not T(sigm[Clamp(int(n), lo, hi)])")
+		c.Undec(rule, sgSpec+"#index", ir[0].Pos(), "integer branch is not T(sigm[clamp(int(n), lo, hi)])")
 	}
 	// float branch: c1/(1+exp(-c2*(n-c3)))
 	c1, c2, c3, why := c19Sigmoid(fr[0].Results[0], nParam)
@@ -963,30 +1003,71 @@ func c19R2(c *Ctx, p *Prog, inst *ssa.Function) {
 	c.Floor(rule, n, 2, "type switches whose branches were compared")
 }
 
-// c19ClampShape: chess.Clamp(x, a, b) is min(b, max(x, a)).
-func c19ClampShape(c *Ctx, rule string, call *ssa.Call) {
-	fn := call.Call.StaticCallee()
-	ok := false
-	if fn != nil && len(fn.Blocks) == 1 && len(fn.Params) == 3 {
-		if ret, isRet := fn.Blocks[0].Instrs[len(fn.Blocks[0].Instrs)-1].(*ssa.Return); isRet && len(ret.Results) == 1 {
-			if mn, isMin := c19IsBuiltin(ret.Results[0], "min"); isMin && len(mn.Call.Args) == 2 {
-				for i := 0; i < 2; i++ {
-					mx, isMax := c19IsBuiltin(mn.Call.Args[1-i], "max")
-					if mn.Call.Args[i] == ssa.Value(fn.Params[2]) && isMax && len(mx.Call.Args) == 2 {
-						a, b := mx.Call.Args[0], mx.Call.Args[1]
-						if (a == ssa.Value(fn.Params[0]) && b == ssa.Value(fn.Params[1])) || (b == ssa.Value(fn.Params[0]) && a == ssa.Value(fn.Params[1])) {
-							ok = true
-						}
-					}
-				}
-			}
+// c19Clamped is x limited to [lo, hi] (nil = unbounded); x == nil with lo == hi for a constant.
+type c19Clamped struct {
+	x      ssa.Value
+	lo, hi *int64
+}
+
+// c19Clamp evaluates nests of the builtins min/max over one non-constant
+// operand, inlining single-expression chess-3 helpers such as chess.Clamp.
+func c19Clamp(v ssa.Value, env map[*ssa.Parameter]c19Clamped, depth int) c19Clamped {
+	v = c19Strip(v)
+	if k, ok := v.(*ssa.Const); ok {
+		if n, isK := constOf(k); isK {
+			return c19Clamped{lo: &n, hi: &n}
 		}
 	}
-	if ok {
-		c.Ok(rule, "chess.Clamp#shape", call.Pos(), "chess.Clamp(x,a,b) is min(b, max(x,a))")
-	} else {
-		c.Undec(rule, "chess.Clamp#shape", call.Pos(), "chess.Clamp no longer has the body min(b, max(x, a)); the index argument of R2 relies on it")
+	if p, ok := v.(*ssa.Parameter); ok {
+		if r, has := env[p]; has {
+			return r
+		}
 	}
+	call, ok := v.(*ssa.Call)
+	if !ok || depth > 4 {
+		return c19Clamped{x: v}
+	}
+	if b, isB := call.Call.Value.(*ssa.Builtin); isB && (b.Name() == "min" || b.Name() == "max") {
+		var res *c19Clamped
+		var k *int64
+		for _, a := range call.Call.Args {
+			r := c19Clamp(a, env, depth+1)
+			switch {
+			case r.x == nil && r.lo != nil:
+				if k == nil || (b.Name() == "min" && *r.lo < *k) || (b.Name() == "max" && *r.lo > *k) {
+					n := *r.lo
+					k = &n
+				}
+			case res == nil:
+				res = &r
+			default:
+				return c19Clamped{x: v}
+			}
+		}
+		if res == nil {
+			return c19Clamped{lo: k, hi: k}
+		}
+		if k != nil && b.Name() == "min" && (res.hi == nil || *k < *res.hi) {
+			res.hi = k
+		}
+		if k != nil && b.Name() == "max" && (res.lo == nil || *k > *res.lo) {
+			res.lo = k
+		}
+		if res.lo != nil && res.hi != nil && *res.lo > *res.hi {
+			return c19Clamped{x: v} // min/max do not commute when the bounds cross
+		}
+		return *res
+	}
+	if fn := call.Call.StaticCallee(); fn != nil && isOwn(fn) && len(fn.Blocks) == 1 && len(fn.Params) == len(call.Call.Args) {
+		if ret, isRet := fn.Blocks[0].Instrs[len(fn.Blocks[0].Instrs)-1].(*ssa.Return); isRet && len(ret.Results) == 1 {
+			ne := map[*ssa.Parameter]c19Clamped{}
+			for i, p := range fn.Params {
+				ne[p] = c19Clamp(call.Call.Args[i], env, depth+1)
+			}
+			return c19Clamp(ret.Results[0], ne, depth+1)
+		}
+	}
+	return c19Clamped{x: v}
 }
 
 func c19FloatConst(v ssa.Value) (float64, bool) {
@@ -1076,7 +1157,7 @@ func c19KindGuards(b *ssa.BasicBlock) map[ssa.Value]map[int64]bool {
 	out := map[ssa.Value]map[int64]bool{}
 	for _, ce := range controllingConds(b) {
 		bo, ok := ce.Cond.(*ssa.BinOp)
-		if !ok || bo.Op != token.EQL || !ce.True {
+		if !ok || !((bo.Op == token.EQL && ce.True) || (bo.Op == token.NEQ && !ce.True)) {
 			continue
 		}
 		for _, pr := range [][2]ssa.Value{{bo.X, bo.Y}, {bo.Y, bo.X}} {
@@ -1161,10 +1242,10 @@ func (t *c19Trav) top(fc *ssa.Call, role string, filtered bool) (*ssa.Call, int)
 				continue
 			}
 		}
-		if call, ok := ce.Cond.(*ssa.Call); ok && objName(calleeObj(call)) == "slices.Contains" && len(call.Call.Args) == 2 {
-			_, isParam := c19Res(call.Call.Args[0]).(*ssa.Parameter)
+		if a0, a1, ok := c19ContainsArgs(ce.Cond); ok {
+			_, isParam := c19Res(a0).(*ssa.Parameter)
 			okName := false
-			if f, ok := call.Call.Args[1].(*ssa.Field); ok {
+			if f, ok := a1.(*ssa.Field); ok {
 				if s, ok := f.X.Type().Underlying().(*types.Struct); ok && s.Field(f.Field).Name() == "Name" {
 					if name, r, a, ok := c19Refl(f.X); ok && name == "Type.Field" && len(a) == 1 && a[0] == ssa.Value(lp.phi) && c19CoeffLike(p, c19ReflStatic(r)) {
 						okName = true
@@ -1199,6 +1280,39 @@ func (t *c19Trav) top(fc *ssa.Call, role string, filtered bool) (*ssa.Call, int)
 }
 
 func c19RelQual(pk *types.Package) string { return relPkg(pk.Path()) }
+
+// c19ContainsArgs: cond is slices.Contains(a, b), directly or through a
+// single-expression chess-3 helper whose parameters are passed on unchanged.
+func c19ContainsArgs(cond ssa.Value) (a0, a1 ssa.Value, ok bool) {
+	call, isCall := cond.(*ssa.Call)
+	if !isCall || len(call.Call.Args) != 2 {
+		return nil, nil, false
+	}
+	if objName(calleeObj(call)) == "slices.Contains" {
+		return call.Call.Args[0], call.Call.Args[1], true
+	}
+	fn := call.Call.StaticCallee()
+	if fn == nil || !isOwn(fn) || len(fn.Blocks) != 1 || len(fn.Params) != 2 {
+		return nil, nil, false
+	}
+	ret, isRet := fn.Blocks[0].Instrs[len(fn.Blocks[0].Instrs)-1].(*ssa.Return)
+	if !isRet || len(ret.Results) != 1 {
+		return nil, nil, false
+	}
+	in, isIn := ret.Results[0].(*ssa.Call)
+	if !isIn || objName(calleeObj(in)) != "slices.Contains" || len(in.Call.Args) != 2 {
+		return nil, nil, false
+	}
+	var out [2]ssa.Value
+	for i, a := range in.Call.Args {
+		for j, p := range fn.Params {
+			if a == ssa.Value(p) {
+				out[i] = call.Call.Args[j]
+			}
+		}
+	}
+	return out[0], out[1], out[0] != nil && out[1] != nil
+}
 
 // c19HelperOf: the own function the reflect.Value v is handed to.
 func c19HelperOf(v ssa.Value) (*ssa.Call, int) {
@@ -1486,7 +1600,7 @@ func c19R3(c *Ctx, p *Prog) {
 			cell := c19Cell(hc.Call.Args[cIdx])
 			okCnt := false
 			if cell != nil {
-				if st := c19CellStores(cell); len(st) == 1 && c19IsZero(st[0].Val) && st[0].Parent() == fn {
+				if st := c19CellStores(cell); len(st) == 1 && c19IsZero(st[0].Val) && (st[0].Parent() == fn || st[0].Parent() == cl) {
 					okCnt = true
 				}
 			}
@@ -1648,6 +1762,30 @@ func c19ValueOf(in ssa.Instruction) ssa.Value {
 // advance: slice F passed to call is loop-carried and advanced by exactly call's result.
 func (t *c19Trav) advance(F ssa.Value, call *ssa.Call, isInit func(ssa.Value) bool, role string, done *int) {
 	c, rule := t.c, t.rule
+	// offset form: base[used:] with used = 0 + Σ counts returned
+	if sl, ok := F.(*ssa.Slice); ok && sl.High == nil && sl.Max == nil && sl.Low != nil && isInit(sl.X) {
+		_, ls := c19PhiClosure(sl.Low)
+		okSum := false
+		if _, isPhi := sl.Low.(*ssa.Phi); isPhi {
+			okSum = true
+			for _, l := range ls {
+				if c19IsZero(l) {
+					continue
+				}
+				b, isB := l.(*ssa.BinOp)
+				if !isB || b.Op != token.ADD || !((b.X == ssa.Value(call) && c19AccOK(b.Y, b, c19IsZero)) || (b.Y == ssa.Value(call) && c19AccOK(b.X, b, c19IsZero))) {
+					okSum = false
+				}
+			}
+		}
+		if okSum {
+			c.Ok(rule, t.key(role), call.Pos(), "each call of %s reads the input from the offset 0 + Σ counts the earlier calls returned", call.Call.Value.Name())
+			*done++
+		} else {
+			c.Undec(rule, t.key(role), call.Pos(), "the slice handed to %s is the input re-sliced at an offset that is not the running sum of the helper's counts", call.Call.Value.Name())
+		}
+		return
+	}
 	phis, leaves := c19PhiClosure(F)
 	if _, ok := F.(*ssa.Phi); !ok {
 		c.Undec(rule, t.key(role), call.Pos(), "the slice handed to %s is not loop-carried: consecutive calls would read the same elements", call.Call.Value.Name())
@@ -1980,6 +2118,7 @@ func c19R6(c *Ctx, p *Prog) {
 	spec := c19Tun + ".(*EngineRep).Eval"
 	fn, origin := p.Func(spec), p.Func("eval.Eval")
 	black, okB := p.pkgConstInt("chess.Black")
+	white, okW := p.pkgConstInt("chess.White")
 	if fn == nil || origin == nil || !okB {
 		c.Anchor(rule, spec+" / eval.Eval / chess.Black")
 		return
@@ -1999,12 +2138,16 @@ func c19R6(c *Ctx, p *Prog) {
 		}
 		for _, pr := range [][2]ssa.Value{{bo.X, bo.Y}, {bo.Y, bo.X}} {
 			k, isK := constOf(pr[1])
-			if ld, ok := pr[0].(*ssa.UnOp); ok && isK && k == black && isFieldLoad(ld, "Board.STM") {
+			if ld, ok := pr[0].(*ssa.UnOp); ok && isK && (k == black || (okW && k == white)) && isFieldLoad(ld, "Board.STM") {
 				if fa := ld.X.(*ssa.FieldAddr); fa.X == ssa.Value(fn.Params[1]) && calls[0].Call.Args[0] == ssa.Value(fn.Params[1]) {
-					if bo.Op == token.EQL {
-						return 1
+					s := 1
+					if bo.Op == token.NEQ {
+						s = -s
 					}
-					return -1
+					if k != black { // STM is two-valued: != White is == Black
+						s = -s
+					}
+					return s
 				}
 			}
 		}
@@ -2106,26 +2249,11 @@ func c19R5(c *Ctx, q *Prog) {
 		return
 	}
 	info := pk.TypesInfo
-	objOf := func(e ast.Expr) types.Object {
-		switch x := ast.Unparen(e).(type) {
-		case *ast.Ident:
-			return info.ObjectOf(x)
-		case *ast.SelectorExpr:
-			return info.ObjectOf(x.Sel)
-		}
-		return nil
-	}
 	callName := func(call *ast.CallExpr) string {
 		if f := astCallee(info, call); f != nil {
 			return objName(f)
 		}
 		return ""
-	}
-	recvOf := func(call *ast.CallExpr) types.Object {
-		if sel, ok := ast.Unparen(call.Fun).(*ast.SelectorExpr); ok {
-			return objOf(sel.X)
-		}
-		return nil
 	}
 	loops := 0
 	for _, file := range pk.Syntax {
@@ -2144,7 +2272,7 @@ func c19R5(c *Ctx, q *Prog) {
 					return true
 				}
 				loops++
-				c19GradLoop(c, q, rule, info, fd, rs, call, objOf, callName, recvOf)
+				c19GradLoop(c, q, rule, info, fd, rs, call)
 				return true
 			})
 		}
@@ -2152,9 +2280,217 @@ func c19R5(c *Ctx, q *Prog) {
 	c.Floor(rule, loops, 1, "range loops over EngineRep.TunedParams in tools/tuner/client")
 }
 
-func c19GradLoop(c *Ctx, q *Prog, rule string, info *types.Info, fd *ast.FuncDecl, rs *ast.RangeStmt, tpCall *ast.CallExpr,
-	objOf func(ast.Expr) types.Object, callName func(*ast.CallExpr) string, recvOf func(*ast.CallExpr) types.Object) {
+// c19AST follows calls inside the client package at AST level: helper
+// functions (FuncDecl of the same package) and local closures (x := func…),
+// with parameters substituted by the caller's argument expressions.
+type c19AST struct {
+	q      *Prog
+	info   *types.Info
+	pkg    *types.Package
+	locals map[types.Object]*ast.FuncLit // single-definition local closures of the analysed function
+	copies map[types.Object]ast.Expr     // single-definition locals that are plain copies: x := y, x := &y, x := pkg.V
+}
+
+type c19Env map[types.Object]ast.Expr
+
+type c19Use struct {
+	what   string // SetVector | Eval | TunedParams | NullVector | ModifyElem
+	recv   types.Object
+	arg    ast.Expr // targets / index argument in the caller's terms
+	argObj types.Object
+	pos    token.Pos
+}
+
+// subst rewrites e into the outermost caller's terms when it is (an address/deref of) a bound parameter.
+func (a *c19AST) subst(e ast.Expr, env c19Env, depth int) ast.Expr {
+	for d := 0; d < 6+depth; d++ {
+		id, ok := ast.Unparen(e).(*ast.Ident)
+		if !ok {
+			return e
+		}
+		b, ok := env[a.info.ObjectOf(id)]
+		if !ok {
+			return e
+		}
+		e = b
+	}
+	return e
+}
+
+// objOf resolves an expression to the variable it denotes, through parens, & and *, selectors and bound parameters.
+func (a *c19AST) objOf(e ast.Expr, env c19Env) types.Object {
+	for d := 0; d < 12; d++ {
+		switch x := ast.Unparen(e).(type) {
+		case *ast.UnaryExpr:
+			if x.Op != token.AND {
+				return nil
+			}
+			e = x.X
+		case *ast.StarExpr:
+			e = x.X
+		case *ast.Ident:
+			o := a.info.ObjectOf(x)
+			if b, ok := env[o]; ok {
+				e = b
+				continue
+			}
+			if b, ok := a.copies[o]; ok {
+				e = b
+				continue
+			}
+			return o
+		case *ast.SelectorExpr:
+			return a.info.ObjectOf(x.Sel)
+		default:
+			return nil
+		}
+	}
+	return nil
+}
+
+func (a *c19AST) callName(call *ast.CallExpr) string {
+	if f := astCallee(a.info, call); f != nil {
+		return objName(f)
+	}
+	return ""
+}
+
+// body returns the body and parameter objects of a followed callee (same-package function or local closure).
+func (a *c19AST) body(call *ast.CallExpr) (*ast.BlockStmt, []types.Object) {
+	var ft *ast.FuncType
+	var body *ast.BlockStmt
+	if f := astCallee(a.info, call); f != nil && f.Pkg() == a.pkg {
+		if sig, _ := f.Type().(*types.Signature); sig != nil && sig.Recv() == nil {
+			if fd := a.q.DeclOf(f); fd != nil && fd.Body != nil {
+				ft, body = fd.Type, fd.Body
+			}
+		}
+	} else if id, ok := ast.Unparen(call.Fun).(*ast.Ident); ok {
+		if fl := a.locals[a.info.ObjectOf(id)]; fl != nil {
+			ft, body = fl.Type, fl.Body
+		}
+	}
+	if body == nil || ft.Params == nil {
+		return body, nil
+	}
+	var ps []types.Object
+	for _, f := range ft.Params.List {
+		for _, n := range f.Names {
+			ps = append(ps, a.info.ObjectOf(n))
+		}
+	}
+	return body, ps
+}
+
+// bind builds the callee environment; nil when arguments and parameters do not line up (variadic, unnamed).
+func (a *c19AST) bind(call *ast.CallExpr, ps []types.Object, env c19Env, depth int) c19Env {
+	if len(ps) != len(call.Args) {
+		return nil
+	}
+	ne := c19Env{}
+	for i, p := range ps {
+		ne[p] = a.subst(call.Args[i], env, depth)
+		if u, ok := ast.Unparen(call.Args[i]).(*ast.UnaryExpr); ok && u.Op == token.AND {
+			ne[p] = &ast.UnaryExpr{Op: token.AND, X: a.subst(u.X, env, depth), OpPos: u.OpPos}
+		}
+	}
+	return ne
+}
+
+// collect lists the tuning API uses under n, following helpers.
+func (a *c19AST) collect(n ast.Node, env c19Env, depth int, out *[]c19Use) {
+	ast.Inspect(n, func(x ast.Node) bool {
+		call, ok := x.(*ast.CallExpr)
+		if !ok {
+			return true
+		}
+		name := a.callName(call)
+		var recv types.Object
+		if sel, ok := ast.Unparen(call.Fun).(*ast.SelectorExpr); ok {
+			recv = a.objOf(sel.X, env)
+		}
+		mk := func(what string, arg ast.Expr) {
+			u := c19Use{what: what, recv: recv, pos: call.Pos()}
+			if arg != nil {
+				u.arg = a.subst(arg, env, depth)
+				u.argObj = a.objOf(arg, env)
+			}
+			*out = append(*out, u)
+		}
+		switch {
+		case name == c19Tun+".(*EngineRep).SetVector" && len(call.Args) == 2:
+			mk("SetVector", call.Args[1])
+		case name == c19Tun+".(*EngineRep).TunedParams" && len(call.Args) == 1:
+			mk("TunedParams", call.Args[0])
+		case name == c19Tun+".NullVector" && len(call.Args) == 1:
+			recv = nil
+			mk("NullVector", call.Args[0])
+		case name == c19Tun+".(*EngineRep).Eval":
+			mk("Eval", nil)
+		case name == c19Tun+".(*Vector).ModifyElem" && len(call.Args) == 2:
+			mk("ModifyElem", call.Args[0])
+		default:
+			if depth < 3 {
+				if body, ps := a.body(call); body != nil {
+					if ne := a.bind(call, ps, env, depth); ne != nil {
+						a.collect(body, ne, depth+1, out)
+					}
+				}
+			}
+		}
+		return true
+	})
+}
+
+func c19GradLoop(c *Ctx, q *Prog, rule string, info *types.Info, fd *ast.FuncDecl, rs *ast.RangeStmt, tpCall *ast.CallExpr) {
 	fname := "client." + fd.Name.Name
+	a := &c19AST{q: q, info: info, locals: map[types.Object]*ast.FuncLit{}, copies: map[types.Object]ast.Expr{}}
+	if o := info.ObjectOf(fd.Name); o != nil {
+		a.pkg = o.Pkg()
+	}
+	defs := map[types.Object]int{}
+	ast.Inspect(fd.Body, func(n ast.Node) bool {
+		if as, ok := n.(*ast.AssignStmt); ok {
+			for i, l := range as.Lhs {
+				if id, ok := l.(*ast.Ident); ok && i < len(as.Rhs) {
+					o := info.ObjectOf(id)
+					defs[o]++
+					if len(as.Lhs) != len(as.Rhs) || as.Tok != token.DEFINE {
+						continue
+					}
+					switch r := ast.Unparen(as.Rhs[i]).(type) {
+					case *ast.FuncLit:
+						a.locals[o] = r
+					case *ast.Ident, *ast.SelectorExpr:
+						a.copies[o] = r
+					case *ast.UnaryExpr:
+						if _, isId := ast.Unparen(r.X).(*ast.Ident); isId && r.Op == token.AND {
+							a.copies[o] = r
+						}
+					}
+				}
+			}
+		}
+		return true
+	})
+	ast.Inspect(fd.Body, func(n ast.Node) bool {
+		if inc, ok := n.(*ast.IncDecStmt); ok {
+			if id, ok := ast.Unparen(inc.X).(*ast.Ident); ok {
+				defs[info.ObjectOf(id)]++
+			}
+		}
+		return true
+	})
+	for o := range a.locals {
+		if defs[o] != 1 {
+			delete(a.locals, o)
+		}
+	}
+	for o := range a.copies {
+		if defs[o] != 1 {
+			delete(a.copies, o)
+		}
+	}
 	var keyObj, ptrObj types.Object
 	if id, ok := rs.Key.(*ast.Ident); ok {
 		keyObj = info.ObjectOf(id)
@@ -2166,186 +2502,311 @@ func c19GradLoop(c *Ctx, q *Prog, rule string, info *types.Info, fd *ast.FuncDec
 		c.Undec(rule, fname+"#range", rs.Pos(), "the TunedParams loop does not define both an index and a pointer variable")
 		return
 	}
-	// (a) gradient index
+	var eObj types.Object
+	if sel, ok := ast.Unparen(tpCall.Fun).(*ast.SelectorExpr); ok {
+		eObj = a.objOf(sel.X, nil)
+	}
+
+	// (a) gradient index: every ModifyElem reached from the body (through helpers) is indexed by the range key
+	var inBody []c19Use
+	a.collect(rs.Body, nil, 0, &inBody)
 	nMod := 0
 	var gradsObj types.Object
-	ast.Inspect(rs.Body, func(n ast.Node) bool {
-		call, ok := n.(*ast.CallExpr)
-		if !ok || callName(call) != c19Tun+".(*Vector).ModifyElem" || len(call.Args) != 2 {
-			return true
-		}
-		nMod++
-		gradsObj = recvOf(call)
-		if id, ok := ast.Unparen(call.Args[0]).(*ast.Ident); ok && info.ObjectOf(id) == keyObj {
-			c.Ok(rule, fname+"#grad-index", call.Pos(), "the gradient element updated is the iterator's own index variable %s", keyObj.Name())
-		} else {
-			c.Fail(rule, fname+"#grad-index", call.Pos(), "the gradient element updated is %s, not the index %s yielded with the perturbed parameter: the finite difference of one coefficient is credited to another", types.ExprString(call.Args[0]), keyObj.Name())
-		}
-		return true
-	})
-	if nMod == 0 {
-		c.Undec(rule, fname+"#grad-index", rs.Pos(), "no Vector.ModifyElem call in the TunedParams loop")
-	}
-	// (b) perturb / restore
-	isDeref := func(e ast.Expr) bool {
-		st, ok := ast.Unparen(e).(*ast.StarExpr)
-		if !ok {
-			return false
-		}
-		id, ok := ast.Unparen(st.X).(*ast.Ident)
-		return ok && info.ObjectOf(id) == ptrObj
-	}
-	iOld, iPert, iRest := -1, -1, -1
-	var oldObj types.Object
-	extra := ""
-	for i, s := range rs.Body.List {
-		as, ok := s.(*ast.AssignStmt)
-		if !ok || len(as.Lhs) != 1 || len(as.Rhs) != 1 {
+	for _, u := range inBody {
+		if u.what != "ModifyElem" {
 			continue
 		}
-		switch {
-		case isDeref(as.Rhs[0]) && iPert < 0 && iOld < 0:
-			if id, ok := as.Lhs[0].(*ast.Ident); ok {
-				iOld, oldObj = i, info.ObjectOf(id)
-			}
-		case isDeref(as.Lhs[0]) && iPert < 0 && (as.Tok == token.ADD_ASSIGN || as.Tok == token.SUB_ASSIGN || as.Tok == token.ASSIGN):
-			iPert = i
-		case isDeref(as.Lhs[0]) && as.Tok == token.ASSIGN && iPert >= 0:
-			if id, ok := ast.Unparen(as.Rhs[0]).(*ast.Ident); ok && oldObj != nil && info.ObjectOf(id) == oldObj {
-				if iRest < 0 {
-					iRest = i
-				}
-			} else {
-				extra = "the parameter is assigned " + types.ExprString(as.Rhs[0]) + " after the perturbation"
-			}
-		}
-	}
-	cons := fname + "#restore"
-	switch {
-	case iPert < 0:
-		c.Undec(rule, cons, rs.Pos(), "no top-level perturbation *%s += ε found in the loop body", ptrObj.Name())
-	case iOld < 0 || iOld > iPert:
-		c.Undec(rule, cons, rs.Body.List[iPert].Pos(), "the parameter's value is not saved (old := *%s) before the perturbation", ptrObj.Name())
-	case iRest < 0:
-		c.Fail(rule, cons, rs.Body.List[iPert].Pos(), "the perturbation of *%s is never undone with the saved value in the loop body: every later finite difference (and every later position) is evaluated with all earlier parameters shifted by ε", ptrObj.Name())
-	case extra != "":
-		c.Undec(rule, cons, rs.Body.List[iPert].Pos(), "%s", extra)
-	default:
-		// no way to the next iteration between perturb and restore; old/ptr not reassigned
-		bad, undec := "", ""
-		for _, s := range rs.Body.List[iPert+1 : iRest] {
-			ast.Inspect(s, func(n ast.Node) bool {
-				switch x := n.(type) {
-				case *ast.FuncLit:
-					return false
-				case *ast.ForStmt, *ast.RangeStmt, *ast.SwitchStmt, *ast.TypeSwitchStmt, *ast.SelectStmt:
-					// break/continue inside may bind to the inner statement: be conservative
-					ast.Inspect(x, func(m ast.Node) bool {
-						if b, ok := m.(*ast.BranchStmt); ok && (b.Tok == token.CONTINUE || b.Label != nil || b.Tok == token.GOTO) {
-							undec = "a " + b.Tok.String() + " inside a nested statement between perturbation and restore"
-						}
-						if _, ok := m.(*ast.ReturnStmt); ok {
-							undec = "a return between perturbation and restore"
-						}
-						return true
-					})
-					return false
-				case *ast.BranchStmt:
-					if x.Tok == token.CONTINUE && x.Label == nil {
-						bad = q.Rel(x.Pos())
-					} else {
-						undec = "a " + x.Tok.String() + " between perturbation and restore"
-					}
-				case *ast.ReturnStmt:
-					undec = "a return between perturbation and restore"
+		nMod++
+		gradsObj = u.recv
+		_, plain := ast.Unparen(u.arg).(*ast.Ident)
+		// a variable declared in this function outside the loop and never assigned inside it cannot carry the key's value
+		outer := false
+		if v, ok := u.argObj.(*types.Var); ok && plain && v.Pos() >= fd.Pos() && v.Pos() < fd.End() && !(v.Pos() >= rs.Pos() && v.Pos() < rs.End()) {
+			outer = true
+			ast.Inspect(rs.Body, func(n ast.Node) bool {
+				switch y := n.(type) {
 				case *ast.AssignStmt:
-					for _, l := range x.Lhs {
-						if id, ok := ast.Unparen(l).(*ast.Ident); ok && (info.ObjectOf(id) == oldObj || info.ObjectOf(id) == ptrObj) && x.Tok != token.DEFINE {
-							undec = "the saved value or the pointer is reassigned between perturbation and restore"
+					for _, l := range y.Lhs {
+						if id, ok := ast.Unparen(l).(*ast.Ident); ok && info.ObjectOf(id) == u.argObj {
+							outer = false
 						}
+					}
+				case *ast.IncDecStmt:
+					if id, ok := ast.Unparen(y.X).(*ast.Ident); ok && info.ObjectOf(id) == u.argObj {
+						outer = false
+					}
+				case *ast.UnaryExpr:
+					if id, ok := ast.Unparen(y.X).(*ast.Ident); ok && y.Op == token.AND && info.ObjectOf(id) == u.argObj {
+						outer = false
 					}
 				}
 				return true
 			})
 		}
 		switch {
-		case bad != "":
-			c.Fail(rule, cons, rs.Body.List[iPert].Pos(), "the loop continues at %s without restoring *%s: the parameter keeps its +ε for all later evaluations", bad, ptrObj.Name())
-		case undec != "":
-			c.Undec(rule, cons, rs.Body.List[iPert].Pos(), "%s: cannot tell the perturbation is undone on every path", undec)
+		case plain && u.argObj == keyObj:
+			c.Ok(rule, fname+"#grad-index", u.pos, "the gradient element updated is the iterator's own index variable %s", keyObj.Name())
+		case outer:
+			c.Fail(rule, fname+"#grad-index", u.pos, "the gradient element updated is %s, a variable of the enclosing function that is never assigned inside the loop, not the index %s yielded with the perturbed parameter: the finite difference of one coefficient is credited to another", types.ExprString(u.arg), keyObj.Name())
 		default:
-			c.Ok(rule, cons, rs.Body.List[iRest].Pos(), "old := *%s is saved before the perturbation and *%s = old follows it in the same statement list with no continue/break/return/goto in between", ptrObj.Name(), ptrObj.Name())
+			c.Undec(rule, fname+"#grad-index", u.pos, "the gradient element updated is %s: cannot tell that it equals the yielded index %s", types.ExprString(u.arg), keyObj.Name())
 		}
 	}
-	// (c) one targets value, one coefficient object, grads from NullVector
-	type use struct {
-		what string
-		arg  ast.Expr
-		pos  token.Pos
+	if nMod == 0 {
+		c.Undec(rule, fname+"#grad-index", rs.Pos(), "no Vector.ModifyElem call reachable from the TunedParams loop body")
 	}
-	uses := []use{{"TunedParams", tpCall.Args[0], tpCall.Pos()}}
-	eObj := recvOf(tpCall)
-	var nullDef types.Object
-	sameRecv := true
-	nEval := 0
-	ast.Inspect(fd.Body, func(n ast.Node) bool {
-		switch x := n.(type) {
-		case *ast.CallExpr:
-			switch callName(x) {
-			case c19Tun + ".(*EngineRep).SetVector":
-				if len(x.Args) == 2 {
-					uses = append(uses, use{"SetVector", x.Args[1], x.Pos()})
-				}
-				if recvOf(x) != eObj {
-					sameRecv = false
-				}
-			case c19Tun + ".NullVector":
-				if len(x.Args) == 1 {
-					uses = append(uses, use{"NullVector", x.Args[0], x.Pos()})
-				}
-			case c19Tun + ".(*EngineRep).Eval":
-				nEval++
-				if recvOf(x) != eObj {
-					sameRecv = false
+
+	// (b) perturb / restore: in the body, or in a helper the pointer is handed to
+	list, pObj, env := rs.Body.List, ptrObj, c19Env(nil)
+	for depth := 0; depth < 3; depth++ {
+		if c19FindPerturb(info, list, pObj) >= 0 {
+			break
+		}
+		moved := false
+		for _, s := range list {
+			var call *ast.CallExpr
+			switch y := s.(type) {
+			case *ast.ExprStmt:
+				call, _ = ast.Unparen(y.X).(*ast.CallExpr)
+			case *ast.AssignStmt:
+				if len(y.Rhs) == 1 {
+					call, _ = ast.Unparen(y.Rhs[0]).(*ast.CallExpr)
 				}
 			}
-		case *ast.AssignStmt:
-			if len(x.Lhs) == 1 && len(x.Rhs) == 1 {
-				if call, ok := ast.Unparen(x.Rhs[0]).(*ast.CallExpr); ok && callName(call) == c19Tun+".NullVector" {
-					nullDef = objOf(x.Lhs[0])
+			if call == nil {
+				continue
+			}
+			body, ps := a.body(call)
+			if body == nil || len(ps) != len(call.Args) {
+				continue
+			}
+			for i, arg := range call.Args {
+				if id, ok := ast.Unparen(arg).(*ast.Ident); ok && info.ObjectOf(id) == pObj && !moved {
+					ne := a.bind(call, ps, env, depth)
+					list, pObj, env, moved = body.List, ps[i], ne, true
 				}
+			}
+		}
+		if !moved {
+			break
+		}
+	}
+	c19Restore(c, a, rule, fname, rs, list, pObj, env, eObj)
+
+	// (c) one targets value, one coefficient object, grads from NullVector
+	var all []c19Use
+	a.collect(fd.Body, nil, 0, &all)
+	var nullDef types.Object
+	ast.Inspect(fd.Body, func(n ast.Node) bool {
+		if as, ok := n.(*ast.AssignStmt); ok && len(as.Lhs) == 1 && len(as.Rhs) == 1 {
+			if call, ok := ast.Unparen(as.Rhs[0]).(*ast.CallExpr); ok && a.callName(call) == c19Tun+".NullVector" {
+				nullDef = a.objOf(as.Lhs[0], nil)
 			}
 		}
 		return true
 	})
 	var tObj types.Object
-	okT := len(uses) >= 3
-	desc := []string{}
-	for i, u := range uses {
-		o := objOf(u.arg)
-		_, isVar := o.(*types.Var)
+	okT := true
+	seen := map[string]bool{}
+	var desc []string
+	for _, u := range all {
+		if u.arg == nil || u.what == "ModifyElem" {
+			continue
+		}
+		seen[u.what] = true
+		_, isVar := u.argObj.(*types.Var)
 		_, plain := ast.Unparen(u.arg).(*ast.Ident)
 		_, sel := ast.Unparen(u.arg).(*ast.SelectorExpr)
-		if !isVar || !(plain || sel) {
+		switch {
+		case !isVar || !(plain || sel):
 			okT = false
-		} else if i == 0 {
-			tObj = o
-		} else if o != tObj {
+		case tObj == nil:
+			tObj = u.argObj
+		case u.argObj != tObj:
 			okT = false
 		}
 		desc = append(desc, u.what+"("+types.ExprString(u.arg)+")")
 	}
-	if okT {
+	if okT && seen["SetVector"] && seen["NullVector"] && seen["TunedParams"] {
 		c.Ok(rule, fname+"#targets", tpCall.Pos(), "SetVector, NullVector and TunedParams all receive the variable %s: %s", tObj.Name(), strings.Join(desc, ", "))
 	} else {
 		c.Undec(rule, fname+"#targets", tpCall.Pos(), "SetVector, NullVector and TunedParams are not all given one and the same variable (%s): cannot tell that the coefficient vector, the gradient vector and the iterator index the same parameters", strings.Join(desc, ", "))
 	}
-	okObjs := sameRecv && eObj != nil && nEval >= 2 && gradsObj != nil && gradsObj == nullDef
-	if okObjs {
-		c.Ok(rule, fname+"#objects", rs.Pos(), "SetVector, Eval (%d calls) and TunedParams act on the one coefficient object %s; the gradients updated are the NullVector %s", nEval, eObj.Name(), gradsObj.Name())
-	} else {
-		c.Undec(rule, fname+"#objects", rs.Pos(), "SetVector/Eval/TunedParams do not all act on one coefficient object, or the vector updated by ModifyElem is not the one created by NullVector")
+	nEval, other := 0, ""
+	for _, u := range all {
+		switch u.what {
+		case "Eval", "SetVector", "TunedParams":
+			if u.what == "Eval" {
+				nEval++
+			}
+			if u.recv == nil || u.recv != eObj {
+				other = fmt.Sprintf("%s at %s acts on another (or an unresolved) object", u.what, q.Rel(u.pos))
+			}
+		}
 	}
+	switch {
+	case eObj == nil || other != "" || !seen["SetVector"] || nEval == 0:
+		c.Undec(rule, fname+"#objects", rs.Pos(), "SetVector/Eval/TunedParams do not provably act on one coefficient object: %s", other)
+	case gradsObj == nil || gradsObj != nullDef:
+		c.Undec(rule, fname+"#objects", rs.Pos(), "the vector updated by ModifyElem is not provably the one created by NullVector")
+	default:
+		c.Ok(rule, fname+"#objects", rs.Pos(), "SetVector, Eval (%d call sites, helpers followed) and TunedParams act on the one coefficient object %s; the gradients updated are the NullVector %s", nEval, eObj.Name(), gradsObj.Name())
+	}
+}
+
+func c19Mentions(info *types.Info, e ast.Expr, o types.Object) bool {
+	found := false
+	ast.Inspect(e, func(n ast.Node) bool {
+		if id, ok := n.(*ast.Ident); ok && info.ObjectOf(id) == o {
+			found = true
+		}
+		return true
+	})
+	return found
+}
+
+func c19IsDeref(info *types.Info, e ast.Expr, ptr types.Object) bool {
+	st, ok := ast.Unparen(e).(*ast.StarExpr)
+	if !ok {
+		return false
+	}
+	id, ok := ast.Unparen(st.X).(*ast.Ident)
+	return ok && info.ObjectOf(id) == ptr
+}
+
+// c19FindPerturb: index of the first statement of list that assigns through ptr.
+func c19FindPerturb(info *types.Info, list []ast.Stmt, ptr types.Object) int {
+	for i, s := range list {
+		if as, ok := s.(*ast.AssignStmt); ok && len(as.Lhs) == 1 && c19IsDeref(info, as.Lhs[0], ptr) {
+			return i
+		}
+		if inc, ok := s.(*ast.IncDecStmt); ok && c19IsDeref(info, inc.X, ptr) {
+			return i
+		}
+	}
+	return -1
+}
+
+// c19Restore: in list, old := *ptr precedes the perturbation, *ptr = old follows it,
+// nothing in between can leave for the next iteration, and the perturbed object is evaluated in between.
+func c19Restore(c *Ctx, a *c19AST, rule, fname string, rs *ast.RangeStmt, list []ast.Stmt, ptrObj types.Object, env c19Env, eObj types.Object) {
+	info, q := a.info, a.q
+	cons := fname + "#restore"
+	iPert := c19FindPerturb(info, list, ptrObj)
+	if iPert < 0 {
+		c.Undec(rule, cons, rs.Pos(), "no perturbation *%s += ε found as a statement of the loop body or of a helper the pointer is handed to", ptrObj.Name())
+		return
+	}
+	iOld, iRest := -1, -1
+	var oldObj types.Object
+	for i := 0; i < iPert; i++ {
+		if as, ok := list[i].(*ast.AssignStmt); ok && len(as.Lhs) == 1 && len(as.Rhs) == 1 && c19IsDeref(info, as.Rhs[0], ptrObj) {
+			if id, ok := as.Lhs[0].(*ast.Ident); ok {
+				iOld, oldObj = i, info.ObjectOf(id)
+			}
+		}
+	}
+	extra := ""
+	for i := iPert + 1; i < len(list); i++ {
+		as, ok := list[i].(*ast.AssignStmt)
+		if !ok || len(as.Lhs) != 1 || len(as.Rhs) != 1 || !c19IsDeref(info, as.Lhs[0], ptrObj) {
+			continue
+		}
+		if id, ok := ast.Unparen(as.Rhs[0]).(*ast.Ident); ok && as.Tok == token.ASSIGN && oldObj != nil && info.ObjectOf(id) == oldObj {
+			if iRest < 0 {
+				iRest = i
+			}
+		} else if iRest < 0 {
+			extra = "the parameter is assigned " + types.ExprString(as.Rhs[0]) + " after the perturbation"
+		}
+	}
+	switch {
+	case iOld < 0:
+		c.Undec(rule, cons, list[iPert].Pos(), "the parameter's value is not saved (old := *%s) before the perturbation in the same statement list", ptrObj.Name())
+		return
+	case iRest < 0 && extra == "" && !c19HasDeferOrGo(list):
+		c.Fail(rule, cons, list[iPert].Pos(), "the perturbation of *%s is never undone with the saved value %s: every later finite difference (and every later position) is evaluated with all earlier parameters shifted by ε", ptrObj.Name(), oldObj.Name())
+		return
+	case iRest < 0 || extra != "":
+		c.Undec(rule, cons, list[iPert].Pos(), "%s: cannot tell the perturbation is undone", map[bool]string{true: extra, false: "no plain restore statement (deferred or indirect restore?)"}[extra != ""])
+		return
+	}
+	bad, undec := "", ""
+	for j := iOld + 1; j < iRest; j++ {
+		after := j > iPert
+		ast.Inspect(list[j], func(n ast.Node) bool {
+			switch x := n.(type) {
+			case *ast.FuncLit:
+				return false
+			case *ast.ForStmt, *ast.RangeStmt, *ast.SwitchStmt, *ast.TypeSwitchStmt, *ast.SelectStmt:
+				ast.Inspect(x, func(m ast.Node) bool {
+					if b, ok := m.(*ast.BranchStmt); ok && after && (b.Tok == token.CONTINUE || b.Label != nil || b.Tok == token.GOTO) {
+						undec = "a " + b.Tok.String() + " inside a nested statement between perturbation and restore"
+					}
+					if _, ok := m.(*ast.ReturnStmt); ok && after {
+						undec = "a return between perturbation and restore"
+					}
+					return true
+				})
+				return false
+			case *ast.BranchStmt:
+				if !after {
+					break
+				}
+				if x.Tok == token.CONTINUE && x.Label == nil {
+					bad = q.Rel(x.Pos())
+				} else {
+					undec = "a " + x.Tok.String() + " between perturbation and restore"
+				}
+			case *ast.ReturnStmt:
+				if after {
+					undec = "a return between perturbation and restore"
+				}
+			case *ast.AssignStmt:
+				for _, l := range x.Lhs {
+					if id, ok := ast.Unparen(l).(*ast.Ident); ok && (info.ObjectOf(id) == oldObj || info.ObjectOf(id) == ptrObj) {
+						undec = "the saved value or the pointer is reassigned between save and restore"
+					}
+				}
+			}
+			return true
+		})
+	}
+	switch {
+	case bad != "":
+		c.Fail(rule, cons, list[iPert].Pos(), "the loop continues at %s without restoring *%s: the parameter keeps its +ε for all later evaluations", bad, ptrObj.Name())
+		return
+	case undec != "":
+		c.Undec(rule, cons, list[iPert].Pos(), "%s: cannot tell the perturbation is undone on every path", undec)
+		return
+	}
+	c.Ok(rule, cons, list[iRest].Pos(), "%s := *%s is saved before the perturbation and *%s = %s follows it in the same statement list with no continue/break/return/goto in between", oldObj.Name(), ptrObj.Name(), ptrObj.Name(), oldObj.Name())
+	// the perturbed object is evaluated while perturbed
+	var win []c19Use
+	for _, s := range list[iPert+1 : iRest] {
+		a.collect(s, env, 0, &win)
+	}
+	n := 0
+	for _, u := range win {
+		if u.what == "Eval" && u.recv != nil && u.recv == eObj {
+			n++
+		}
+	}
+	if n > 0 {
+		c.Ok(rule, fname+"#perturbed-eval", list[iPert].Pos(), "between perturbation and restore the perturbed object %s is evaluated (%d Eval call site(s), helpers followed)", eObj.Name(), n)
+	} else {
+		c.Undec(rule, fname+"#perturbed-eval", list[iPert].Pos(), "no Eval on the perturbed coefficient object found between perturbation and restore: cannot tell that the finite difference measures this parameter")
+	}
+}
+
+func c19HasDeferOrGo(list []ast.Stmt) bool {
+	for _, s := range list {
+		switch s.(type) {
+		case *ast.DeferStmt, *ast.GoStmt:
+			return true
+		}
+	}
+	return false
 }
 
 // ---------- mutants ----------
@@ -2422,6 +2883,12 @@ func init() {
 		Mutant{Name: "C19.R5-other-targets", Prop: "C19", File: "tools/tuner/client/client.go",
 			Old: "range eCoeffs.TunedParams(tuning.DefaultTargets)", New: "range eCoeffs.TunedParams(tuning.DefaultTargets[1:])",
 			Expect: "C19.R5/client.clientWorker#targets"},
+		Mutant{Name: "C19.R5-perturbed-eval-on-fresh-coeffs", Prop: "C19", File: "tools/tuner/client/client.go",
+			Old: "\t\t\t\tscore2 := eCoeffs.Eval(&b)\n", New: "\t\t\t\tfresh := tuning.EngineCoeffs()\n\t\t\t\tscore2 := fresh.Eval(&b)\n",
+			Expect: "C19.R5/client.clientWorker#perturbed-eval"},
+		Mutant{Name: "C19.R2-unclamped-index", Prop: "C19", File: "eval/eval.go",
+			Old: "return T(sigm[Clamp(int(n), 0, len(sigm)-1)])", New: "return T(sigm[int(n)])",
+			Expect: "C19.R2/eval.sigmoidal#index"},
 		Mutant{Name: "C19.R6-negates-for-white", Prop: "C19", File: vec, Quick: true,
 			Old: "\tif b.STM == Black {\n\t\tscore = -score", New: "\tif b.STM == White {\n\t\tscore = -score",
 			Expect: "C19.R6/"},
